@@ -111,6 +111,12 @@ def _plan(draw):
         # files not written by the library itself: the first feature(s) / item(s) lack some of the properties / keys
         # (every property still occurs in the last feature, so that naming it stays meaningful)
         kw["ragged"] = [draw(st.integers(1, n - 1)), [nm for nm in names if draw(st.booleans())]]
+        for nm in kw["ragged"][1]:
+            # no cast for a column that thereby has missing cells: read-everything promotes int -> float first, so
+            # "cast afterwards" and "typed read" legitimately spell the other cells differently ('0.0' / '0')
+            kw.get("dtypes", {}).pop(nm, None)
+        if not kw.get("dtypes", True):
+            kw.pop("dtypes")
     if fmt == "lod_json" and draw(st.integers(0, 1)) == 0:
         # one key holding equal values of different types (1, 1.0, true): a converter such as str tells them apart
         j = draw(st.integers(0, k - 1))
@@ -311,6 +317,11 @@ def check(plan, ctx):
         if cn in casts:
             ref = di.Vector(ref, _DT[casts[cn]])
         a, b = build.cells(got[cn]), build.cells(ref)
+        if cn in casts and len(a) == len(b):
+            # a cell that is missing before the cast: how a cast spells a missing value (NaN -> 'nan', '' -> '') is not
+            # the reader's business; there the typed read may show the cast's spelling or a missing value
+            miss = [c is None for c in build.cells(full[cn])]
+            a = [y if (m and x is None) else x for x, y, m in zip(a, b, miss)]
         if len(a) != len(b) or not all(build.same_cell(x, y) if not isinstance(x, dict) else x == y for x, y in zip(a, b)):
             raise Violation("a value did not stay under its own name / differs from select-and-cast", column=cn,
                             got=a, want=b, kwargs={k: repr(v) for k, v in kwargs.items()})
